@@ -395,11 +395,11 @@ def build_inputs(chk, drv):
     gen = []
     shapes = list(gensql.enumerate_shapes(1))
     rng.shuffle(shapes)
-    gen += shapes[: (60 if thorough else 22)]
+    gen += shapes[: (50 if thorough else 22)]
     Rg = gensql.Rand(rng, max_depth=3 if thorough else 2)
-    for i in range(80 if thorough else 30):
+    for i in range(60 if thorough else 30):
         gen.append((f"rand-{i}", Rg.stmt(rng.choice([1, 2, 2, 3]) if thorough else rng.choice([1, 2]))))
-    for i in range(10 if thorough else 4):
+    for i in range(8 if thorough else 4):
         gen.append((f"spark-{i}", Rg.spark_stmt(rng.choice([1, 2]))))
     gen += ddl_statements()
     uppers = [rng.random() < 0.25 for _ in gen]
@@ -453,7 +453,7 @@ def build_jobs(chk, inputs):
                 primary = di == (ii % len(ds))
                 jobs.append({"input": ii, "sql": inp["sql"], "dialect": d, "strict": inp["strict"], "seed": rng.randrange(2 ** 31),
                              "mode": "single" if primary or len(ds) == 1 else "sample",
-                             "cap": 30 if big else 300, "n": (5 if big else 20) if primary or len(ds) == 1 else 6})
+                             "cap": 24 if big else 200, "n": (4 if big else 14) if primary or len(ds) == 1 else 5})
         else:
             per = max(2, -(-30 // len(ds)))
             for d in ds:
@@ -801,7 +801,7 @@ def run(chk):
              "(25% with upper-case keywords), MERGE/UPDATE/COPY/script text templates, and the harvested corpus (tests + TPC-DS; "
              "quick: a stratified seeded sample of 75, thorough: all). variants per (statement, dialect): quick ~30 seeded rewrite sets "
              "spread over the dialects (single rewrites, small sets, dense sets, uniform sweeps); thorough: every single rewrite at every "
-             "eligible token boundary / word token for the statement's primary dialect (capped at 300, 30 for scripts > 1500 chars: "
+             "eligible token boundary / word token for the statement's primary dialect (capped at 200, 24 for scripts > 1500 chars: "
              "then a seeded sample) + seeded combinations on every dialect. evaluations = LineageRunner runs (originals + variants) plus "
              "direct-correspondence cases; non-trivial = the original reports at least one table or column path; distinct by (SQL text, dialect)",
         trusted_base=["Lean 4.33 kernel", "axioms: propext, Classical.choice, Quot.sound", "tools/translate.py (Gen/Const.lean, Gen/Dispatch.lean)",
